@@ -217,9 +217,14 @@ class GateCompiler(object):
         """
         min_step_size = np.inf
         # Two times are taken to be equal if they differ by less than the
-        # rounding of the scheduled start times (relative to the largest one).
+        # rounding of the scheduled times, which is relative to the total
+        # time of the schedule (the largest end time of an instruction).
         time_tol = 1.0e-12 * max(
-            [abs(inst[0]) for insts in pulse_instructions for inst in insts],
+            [
+                abs(inst[0]) + np.max(inst[1], initial=0.0)
+                for insts in pulse_instructions
+                for inst in insts
+            ],
             default=0.0,
         )
         # Concatenate tlist and coeffs for each control pulses
